@@ -18,8 +18,15 @@ import (
 )
 
 // verifyFunction generates all obligations of one function (instance).
+var propertyOptions = map[string][]string{}
+
 func verifyFunction(prog *Program, cs *ContractSet, property string, fn *ssa.Function, c *Contract, label string) (x *Exec) {
 	x = newExec(prog, cs, property)
+	for _, o := range propertyOptions[property] {
+		if o == "implicit-frame-contracts" {
+			x.implicitFrame = true
+		}
+	}
 	x.topLabel = label
 	defer func() {
 		if r := recover(); r != nil {
@@ -32,6 +39,7 @@ func verifyFunction(prog *Program, cs *ContractSet, property string, fn *ssa.Fun
 	fr := x.newFrame(fn, 0)
 	fr.top = true
 	fr.contract = c
+	x.topContract = c
 	x.topFrame = fr
 	st := &State{H: map[string]string{}}
 	alloc0 := x.alloc(st)
@@ -119,6 +127,8 @@ type PropertyDef struct {
 	Roots   []string // patterns over contract targets / function keys
 	Sweep   []string // functions verified for panic-freedom only (no contract needed)
 	Lemmas  []string
+	Options []string // engine options for this property (implicit-frame-contracts)
+	Kinds   []string // when set: only obligations of these kinds decide the property (e.g. frame pre unsupported)
 }
 
 func loadPropertyMap(file string) (map[string]*PropertyDef, error) {
@@ -151,6 +161,10 @@ func loadPropertyMap(file string) (map[string]*PropertyDef, error) {
 			pd.Sweep = append(pd.Sweep, f[1:]...)
 		case "lemmas":
 			pd.Lemmas = append(pd.Lemmas, f[1:]...)
+		case "kinds":
+			pd.Kinds = append(pd.Kinds, f[1:]...)
+		case "options":
+			pd.Options = append(pd.Options, f[1:]...)
 		}
 	}
 	return out, nil
@@ -255,6 +269,18 @@ type CheckResult struct {
 	GenSecs     float64
 }
 
+func kindInProperty(o *Obligation, pd *PropertyDef) bool {
+	if len(pd.Kinds) == 0 {
+		return true
+	}
+	for _, k := range pd.Kinds {
+		if o.Kind == k {
+			return true
+		}
+	}
+	return false
+}
+
 func obligationInProperty(o *Obligation, property string) bool {
 	if property == "" || len(o.Tags) == 0 {
 		return true
@@ -265,6 +291,7 @@ func obligationInProperty(o *Obligation, property string) bool {
 func runCheck(prog *Program, cs *ContractSet, pd *PropertyDef, tier string, workers int) *CheckResult {
 	start := time.Now()
 	res := &CheckResult{Property: pd.ID, Tier: tier}
+	propertyOptions[pd.ID] = pd.Options
 	all := allModuleFuncs(prog)
 	items, missing := resolveItems(prog, cs, append(append([]string{}, pd.Roots...), pd.Sweep...), all)
 	for _, m := range missing {
@@ -333,7 +360,7 @@ func runCheck(prog *Program, cs *ContractSet, pd *PropertyDef, tier string, work
 			res.Broken = append(res.Broken, e)
 		}
 		for _, o := range x.obls {
-			if obligationInProperty(o, pd.ID) {
+			if obligationInProperty(o, pd.ID) && kindInProperty(o, pd) {
 				res.Obligations = append(res.Obligations, o)
 			}
 		}
@@ -389,10 +416,37 @@ func vacuityQueries(res *CheckResult) []string {
 		go func(x *Exec) {
 			defer wg.Done()
 			o := &Obligation{Prefix: x.vacuityPrefix, PC: "true", Goal: "false", exec: x}
-			r := solve(x.query(o, false), 10, false, false)
+			// quantifier-free weakening of the entry assumptions: unsat here implies the real
+			// preconditions are contradictory; it answers in milliseconds
+			r := solve(x.cexQuery(o)+"(check-sat)\n", 5, false, false)
 			if r.Status == "unsat" {
 				mu.Lock()
 				broken = append(broken, "vacuous-precondition: "+x.topLabel+" (requires/scope clauses are contradictory)")
+				mu.Unlock()
+			}
+		}(x)
+	}
+	// reachability of the function body: the last return in source order (the normal way out) must
+	// be reachable under the preconditions and the assumed contracts of the callees; otherwise every
+	// obligation behind the contradiction would be discharged vacuously
+	for _, x := range res.Execs {
+		if len(x.returnPoints) == 0 || (x.topContract != nil && x.topContract.Implicit) {
+			continue
+		}
+		wg.Add(1)
+		go func(x *Exec) {
+			defer wg.Done()
+			last := x.returnPoints[0]
+			for _, rp := range x.returnPoints {
+				if rp.line > last.line {
+					last = rp
+				}
+			}
+			o := &Obligation{Prefix: last.prefix, PC: last.pc, Goal: "false", exec: x}
+			r := solve(x.cexQuery(o)+"(check-sat)\n", 5, false, false)
+			if r.Status == "unsat" {
+				mu.Lock()
+				broken = append(broken, fmt.Sprintf("vacuous-body: %s (the return at line %d is unreachable under the contract's assumptions)", x.topLabel, last.line))
 				mu.Unlock()
 			}
 		}(x)
